@@ -1,6 +1,6 @@
 """Source of truth for MANIFEST.json (run: python -m vlib.mkmanifest)."""
 
-REPO_FIX_COMMITS = ["04f98b2", "9ce180e", "cfc2ed2", "1d8dc7e", "8ef3efb", "a7c5d9c", "2fb9873", "812fbc2", "343713a", "2036f84", "8402cd8", "1e36e27", "ed92c78", "c0485e3", "a0c4921", "9103dfd", "b4aac6a"]
+REPO_FIX_COMMITS = ["04f98b2", "9ce180e", "cfc2ed2", "1d8dc7e", "8ef3efb", "a7c5d9c", "2fb9873", "812fbc2", "343713a", "2036f84", "8402cd8", "1e36e27", "ed92c78", "c0485e3", "a0c4921", "9103dfd", "b4aac6a", "62476ec"]
 
 CHECKS = {
     "C10": {
@@ -68,6 +68,12 @@ CHECKS = {
         "text": "All pairs of names with <= 2 labels (quick) / <= 3 labels (thorough, 2.1e6 pairs x case variants) over the 11-label alphabet, generated SAN lists with IP and commonName variants, and tens of thousands of pins derived from true digests are decided against a reference that is independent of urllib3's matcher; both directions (must-accept, must-reject) are asserted.",
         "note": "Trusts vlib/refname.py, stdlib ipaddress and hashlib. Partial wildcards and certificates with a malformed multi-wildcard entry ahead of the matching entry are 'either'.",
         "design_ref": "DESIGN.md section 4, C08",
+    },
+    "C15": {
+        "technique": "bounded-exhaustive (14 hosts x 7 ports x 4 scheme spellings x routing, and 16 paths x 9 queries x 5 fragments x 5 userinfos) + Hypothesis-composed URLs, each paired with an equivalent spelling, on the in-memory network (direct, forwarding proxy, CONNECT tunnel, null TLS); oracle: independent RFC 3986 reading of the URL string compared with the address dialled, CONNECT line, TLS server name, Host header (strict grammar) and request target (metamorphic decoding relation); equivalent URLs must reach the same pool/connection with identical bytes",
+        "text": "Every generated URL and an equivalent spelling of it (scheme/host case flipped, explicit default port toggled) is requested through PoolManager and ProxyManager; what the socket layer was asked to dial, what the proxy parsed as CONNECT, the server name in the TLS marker handshake, the Host header and the request target are compared with the reference reading of the URL; fragments and userinfo must never reach the wire.",
+        "note": "Trusts vlib/refurl.py, the idna package, vlib/world.py, vlib/nulltls.py. Known findings KF-C15-tunnelv6 (doubled brackets in Host inside a tunnel) and KF-C15-fwd-default-port are matched by signature and counted.",
+        "design_ref": "DESIGN.md section 4, C15",
     },
     "C16": {
         "technique": "model-based testing: exhaustive operation sequences (<=3 quick, <=4 thorough over a 41-op alphabet) + Hypothesis-generated sequences (<=30 ops, all source types) against a reference multimap, full observation of every live dict after every step",
